@@ -45,7 +45,7 @@ func (*BytecodeCompiler).emit
   ensures ghostdef pop1: (op == bytecode.POP || op == bytecode.JUMP_UNLESS || op == bytecode.JUMP_IF || op == bytecode.JUMP_UNLESS_NIL) ==> ghost(depth, c) == old(ghost(depth, c)) - 1
   ensures ghostdef peek: (op == bytecode.JUMP_UNLESS_NP || op == bytecode.JUMP_IF_NP || op == bytecode.JUMP_UNLESS_NNP) ==> ghost(depth, c) == old(ghost(depth, c))
   ensures ghostdef cast: op == bytecode.AS ==> ghost(depth, c) == old(ghost(depth, c)) - 1
-  ensures ghostdef must: op == bytecode.MUST ==> ghost(depth, c) == old(ghost(depth, c))
+  ensures ghostdef must: (op == bytecode.MUST || op == bytecode.CHECK_ABORT || op == bytecode.AWAIT || op == bytecode.AWAIT_SYNC || op == bytecode.AWAIT_RESULT) ==> ghost(depth, c) == old(ghost(depth, c))
   // THROW never falls through; every other opcode leaves the fall-through path alive or dead as it was
   ensures ghostdef thrown: op == bytecode.THROW ==> ghost(dead, c) == 1
   ensures ghostdef live: op != bytecode.THROW ==> ghost(dead, c) == old(ghost(dead, c))
